@@ -54,9 +54,10 @@ def make_problem(cfg):
     k1, k2, k3, k4 = jax.random.split(key, 4)
     n, b = cfg["n"], cfg["b"]
     aux = cfg.get("aux", "none")
-    eq_params = {"a": jnp.asarray(0.7)}
+    eq_params = {}
     if cfg.get("clock"):
-        eq_params.update(clock=jnp.asarray(0.0), nan_from=jnp.asarray(float(cfg.get("nan_from", 1e9))))
+        eq_params.update(nan_from=jnp.asarray(float(cfg.get("nan_from", 1e9))), clock=jnp.asarray(0.0))
+    eq_params["a"] = jnp.asarray(0.7)  # non-alphabetical insertion order
     hidden = cfg.get("hidden", 3)
     with warnings.catch_warnings():
         warnings.simplefilter("ignore")
@@ -117,7 +118,7 @@ def make_optimizer(name, extra=None):
 def tracked_spec(name, params):
     if name == "none":
         return None
-    eq_tracked = {k: (True if k == "a" else None) for k in params.eq_params}
+    eq_tracked = {k: (True if k == "a" else None) for k in reversed(list(params.eq_params))}  # a dict is matched by key
     if name == "eq":
         return jinns.parameters.Params(nn_params=None, eq_params=eq_tracked)
     return jinns.parameters.Params(nn_params=jax.tree_util.tree_map(lambda _: True, params.nn_params), eq_params=eq_tracked)
